@@ -66,9 +66,9 @@ BOUNDS = {
            "rollup (RU2/3/4, 6 PACs, 2 mid-row codes, BS, extended, EDM, depth 7), painton (6 PACs, mid-row, BS, DER, "
            "extended, EDM, depth 6), painton-words (pairs with blanks, depth 7), mix (alternations of the three styles, depth 9), "
            "deco-n / deco-d (single and doubled codes x null / channel-2 code / channel-2 PAC+text x line breaks with gap "
-           "0 / 1 / 40 frames, NDF resp. DF time codes across 00:01:00, depth 5 resp. 6); text_align auto on every history, "
+           "0 / 1 / 40 frames, NDF resp. DF time codes across 00:01:00, depth 5 resp. 6; deco-d2 / deco-d10: the DF family without characters and backspace across 00:02:00 and 00:10:00, depth 5); text_align auto on every history, "
            "left / center / right on every history that ends with EOC; odd VERIF_SEED swaps DF and NDF",
-  "thorough": "popon-layout 9, popon-pen 7, popon-reuse 8, rollup 8, painton 7, painton-words 8, mix 10, deco-n 7, deco-d 7",
+  "thorough": "popon-layout 9, popon-pen 7, popon-reuse 8, rollup 8, painton 7, painton-words 8, mix 10, deco-n 7, deco-d 7, deco-d2 6, deco-d10 6",
 }
 ASSUMPTIONS = [
   "mc/ref608dec.py is CEA-608 / 47 CFR 15.119 (bound by gates(): PAC row table, hand examples, the literals asserted by "
@@ -186,11 +186,15 @@ PROFILES = {
                  chars=("S",), bs=True, der=False, enm=False, edm=True, neutral=("N", "C2"), nl=True,
                  doubling="both", rate="d", reuse=False),
 }
+# the drop-frame minute boundaries are of three kinds: minute 0 -> 1 of a ten-minute block (deco-d, first line at 00:00:59;20), a boundary
+# between two minutes that both drop labels (first line at 00:01:59;26, so that four words reach it) and minute 9 -> 10, where nothing is dropped (00:09:59;26)
+PROFILES["deco-d2"] = dict(PROFILES["deco-d"], k0=3594, chars=(), bs=False)
+PROFILES["deco-d10"] = dict(PROFILES["deco-d"], k0=17978, chars=(), bs=False)
 DEPTHS = {
   "quick": {"popon-swap": 12, "popon-layout": 7, "popon-pen": 6, "popon-reuse": 7, "rollup": 7, "painton": 6, "painton-words": 7, "mix": 9,
-            "deco-n": 5, "deco-d": 6},
+            "deco-n": 5, "deco-d": 6, "deco-d2": 5, "deco-d10": 5},
   "thorough": {"popon-swap": 15, "popon-layout": 9, "popon-pen": 7, "popon-reuse": 8, "rollup": 8, "painton": 7, "painton-words": 8, "mix": 10,
-               "deco-n": 7, "deco-d": 7},
+               "deco-n": 7, "deco-d": 7, "deco-d2": 6, "deco-d10": 6},
 }
 
 # ------------------------------------------------------------------------------------------------------
@@ -396,7 +400,7 @@ class Rendered:
         new_line, gap = True, AUTO_NL_GAP       # families without line-break tokens: each caption start opens a line
       if new_line:
         if cur is None:
-          k = K0
+          k = prof.get("k0", K0)
         else:
           k = cur[0] + len(cur[1]) + (gap if gap is not None else AUTO_NL_GAP)
         cur = (k, [])
